@@ -462,6 +462,11 @@ def queue(ctx):
                 succ = path.edges_entailing(f, ('not', ('atom', 'zero', i.res))) if i.res else []
                 # unlink idiom (a_list_del_node inlined): store to (load node.prev).next and (load node.next).prev
                 unl = [s for s in f.instrs() if s.op == 'store' and is_neighbour_store(f, s, node)]
+                # ... or a file-local helper that unlinks its argument on every path (the idiom moved into a function)
+                for c_ in f.instrs():
+                    if c_.op == 'call' and c_ is not i and unlinks_argument(fns, effects.callee_name(c_), [k_ for k_, o_ in enumerate(c_.ops)
+                            if o_.k == 'reg' and node.k == 'reg' and (o_.v == node.v or path.derived_from(f, o_, node.v))]):
+                        unl.append(c_)
                 if not i.res or not succ:
                     rep.bad('Q1', '%s@%s' % (n, f.line(i)), 'result of a_que_die_ is not tested', loc=loc, key='%s: die unchecked' % n)
                 elif not unl:
@@ -746,6 +751,29 @@ def is_neighbour_store(f, s, node):
     if g2 is None or g2.op != 'gep':
         return False
     return g2.ops[0].k == 'reg' and node.k == 'reg' and (g2.ops[0].v == node.v or path.derived_from(f, g2.ops[0], node.v))
+
+
+def unlinks_argument(fns, name, argidx, depth=0):
+    """does the function defined in this unit write the ring neighbours of one of the given arguments on every path to its returns?"""
+    g = fns.get(name) if name else None
+    if g is None or not argidx or depth > 3 or name in ('a_que_die_', 'a_que_new_'):
+        return False
+    for k in argidx:
+        if k >= len(g.params) or g.params[k][1] is None:
+            continue
+        pn = g.params[k][1]
+
+        class _N:
+            k = 'reg'
+            v = pn
+        sites = [s for s in g.instrs() if s.op == 'store' and is_neighbour_store(g, s, _N)]
+        for c_ in g.instrs():
+            if c_.op == 'call' and unlinks_argument(fns, effects.callee_name(c_), [j for j, o_ in enumerate(c_.ops)
+                    if o_.k == 'reg' and (o_.v == pn or path.derived_from(g, o_, pn))], depth + 1):
+                sites.append(c_)
+        if sites and path.must_pass(g, g.entry, set(x.block for x in sites))[0]:
+            return True
+    return False
 
 
 def reseats(f, copy_ins):
